@@ -231,7 +231,10 @@ func rewritePropertyLookupOperator(propertyLookup *pgsql.BinaryExpression, dataT
 		propertyLookup.Operator = pgsql.OperatorJSONTextField
 		return pgsql.NewTypeCast(propertyLookup, dataType)
 
-	case pgsql.UnknownDataType:
+	case pgsql.UnknownDataType, pgsql.UnsetDataType, pgsql.Null:
+		// The other operand has no usable type: an untyped NULL (a nil parameter value) has the pseudo type
+		// "null", and e.g. a coalesce() over property lookups has none at all. Neither is a type name PostgreSQL
+		// knows (`…::null`, `…:: =`), so there is nothing to cast the lookup to.
 		propertyLookup.Operator = pgsql.OperatorJSONTextField
 		return propertyLookup
 
